@@ -229,14 +229,16 @@ def model (ops : List String) : List String := runLines {} ops
 
 /-! ### judge: the documented semantics, directly from the samples -/
 
+/-- keep the later of two candidates -/
+def pickLater (b : Option Sample) (s : Sample) : Option Sample :=
+  match b with
+  | none => some s
+  | some x => if s.t ≥ x.t then some s else some x
+
 /-- latest sample in (r - lb, r]; a staleness marker makes the series absent -/
 def jInstant (series : Series) (lb r : Int) : Option Sample :=
   let cands := series.filter fun s => decide (r - lb < s.t) && decide (s.t ≤ r)
-  let best := cands.foldl (fun (b : Option Sample) s =>
-    match b with
-    | none => some s
-    | some x => if s.t ≥ x.t then some s else some x) none
-  best.filter fun s => !s.stale
+  (cands.foldl pickLater none).filter fun s => !s.stale
 
 /-- non-stale samples in (lo, hi] -/
 def jRange (series : Series) (lo hi : Int) : Series :=
